@@ -59,6 +59,20 @@ def build_factory(cfg):
         from syne_tune import Tuner, StoppingCriterion
         from syne_tune.results_callback import StoreResultsCallback
         R = cfg["R"]
+        # RegularCallback (periodic store of the results) reads datetime.now() and compares whole seconds: the harness owns that
+        # clock - it advances 2 s per reading when the configuration asks for a store after every result, else it stands still
+        import datetime as _dt
+        import syne_tune.util as _util
+
+        class _Clock:
+            t = _dt.datetime(2020, 1, 1)
+            step = _dt.timedelta(seconds=2 if cfg["interval"] < 1 else 0)
+
+            @classmethod
+            def now(cls):
+                cls.t = cls.t + cls.step
+                return cls.t
+        _util.datetime = _Clock
         sched, info = scheds.make(cfg["kind"], mode=cfg["mode"], seed=cfg["seed"], R=R, mra=cfg.get("mra", True))
         tunerx.wrap_scheduler(sched, log)
         sign = 1.0 if cfg["mode"] == "min" else -1.0
